@@ -174,6 +174,7 @@ def configs(tier, seed):
     def add(**cfg):
         cfg.setdefault("seed", seed)
         cfg.setdefault("h", 3 if q else 4)
+        cfg.setdefault("max_paths", 350 if q else 1300)
         out.append(cfg)
 
     # --- reused worlds: stopping / promotion / synchronous Hyperband
